@@ -151,7 +151,7 @@ fn biased_graph(max_rules: usize) -> impl Strategy<Value = GraphSpec>
 
 fn ops_biased(max_ops: usize) -> impl Strategy<Value = Vec<Op>>
 {
-    let mix = OpMix { rule_edits: false, ruler_dir_damage: false, cleans: true, delete_leaf: true, swaps: 8, dir_ops: 0 };
+    let mix = OpMix { rule_edits: false, ruler_dir_damage: false, cleans: true, delete_leaf: true, swaps: 8, dir_ops: 0, orphan: false };
     prop_oneof![
         1 => gen::ops(mix, max_ops),
         1 => (any::<u16>(), any::<u16>(), gen::ops(mix, max_ops / 2), prop_oneof![2 => Just(None), 1 => any::<u16>().prop_map(Some)]).prop_map(|(a, b, tail, goal)|
